@@ -481,7 +481,11 @@ class TimeTriggeredPlanValidator(engines.engine.Engine, mixins.PlanValidatorMixi
             if inside_indexes_condition:
                 inside_indexes.append(x)
 
-        if not open_interval:
+        if not open_interval or (
+            equal_time == before_time and (end is None or start < end)
+        ):
+            # closed on the left: the state at `start`; open on the left with no
+            # happening exactly at `start`: that same state persists inside the interval
             yield before_time, trace[before_time]
         if equal_time != before_time and equal_time != end:
             yield equal_time, trace[equal_time]
